@@ -338,6 +338,42 @@ func c17Scheduler(j *Job) {
 			}
 		}
 	}
+	// late joiners: a stream becomes active after another one has been served for a while and
+	// is still backlogged (non-initial scheduler state), then everything drains
+	if j.mine(1) {
+		for _, pc := range c17Policies() {
+			for served := 1; served <= 7; served++ {
+				for _, joiner := range []uint16{2, 3} {
+					for _, sh := range shapes {
+						var ops []pqOp
+						for r := 0; r < 4; r++ {
+							ops = append(ops, pqOp{stream: 1, shape: pqShape{3, P}})
+						}
+						for k := 0; k < served; k++ {
+							ops = append(ops, pqOp{pop: true})
+						}
+						for r := 0; r < 6; r++ {
+							ops = append(ops, pqOp{stream: joiner, shape: sh})
+						}
+						for k := 0; k < 40; k++ {
+							ops = append(ops, pqOp{pop: true})
+						}
+						bad := false
+						fail := func(oracle, msg string) {
+							bad = true
+							j.failSeq("pq."+oracle, "pq/"+pc.name+"/latejoin", fmt.Sprintf("%s: stream %d joins after %d chunks of stream 1 were served (%v): %s", pc.name, joiner, served, sh, msg), nil)
+						}
+						trace := pqRun(pc, ops, fail)
+						if !bad {
+							pqCheckTrace(pc, trace, fail)
+						}
+						j.Stats.Steps += int64(len(ops))
+						j.Stats.NewStates++
+					}
+				}
+			}
+		}
+	}
 	j.Stats.Execs += int(j.Stats.NewStates)
 	j.sample(map[string]any{"engine": "seq", "what": "all push/pop sequences on the real pendingQueue", "alphabet": fmt.Sprint(alphabet), "depth": depth, "policies": "message, rr, wfq(1:2:5), wfq-equal"})
 }
